@@ -21,8 +21,8 @@ CHECKS["C02"] = dict(
 CHECKS["C16"] = dict(
     category="exploration",
     technique="exhaustive enumeration of depth-2 (parent, child, position) triples + Hypothesis random LNodes trees; round-trip oracle format -> independent parser (pycparser / Python ast) -> normal form, plus value equality",
-    text="Every well-typed parent/child/operand-position combination of the AST is formatted by the C formatter (two scalar types) and the numba formatter and re-parsed by an independent grammar; random deeper expression and statement trees (literals near 1, subnormal, negative, complex; MultiIndex operands; nested loops, sections, array declarations) extend this. The depth-2 space is exhausted; deeper trees are sampled.",
-    note="Trusted: pycparser C grammar, CPython ast. Math function *names* are mapped through the formatter's own tables (structure only). INT/INT division and ill-typed trees are outside the domain.",
+    text="Every well-typed parent/child/operand-position combination of the AST is formatted by the C formatter (four scalar types for expressions) and the numba formatter and re-parsed by an independent grammar; random deeper expression and statement trees (literals near 1, subnormal, negative, complex; MultiIndex operands; nested loops, sections, array declarations) extend this. The depth-2 space is exhausted; deeper trees are sampled.",
+    note="Trusted: pycparser C grammar, CPython ast. Math function names are judged against the C99 <math.h>/<complex.h> and numpy names written in the harness (every function x operand type class x scalar type enumerated). INT/INT division and ill-typed trees are outside the domain.",
     design="5/C16",
 )
 CHECKS["C17"] = dict(
@@ -35,7 +35,7 @@ CHECKS["C17"] = dict(
 CHECKS["C11"] = dict(
     category="exploration",
     technique="Hypothesis-generated monomial functionals x degree x scheme x rational affine geometry; oracles: exact rational integration and the harness's own per-integral quadrature sums (basix rules)",
-    text="Generated functionals with one or several (degree, scheme) rules in a subdomain, negative controls above the rule's degree, vertex scheme, quadrature elements (default and custom points/weights) and metadata-free polynomial products; the kernel value must equal the sum of each integral's own rule and the exact rational integral where the rule is exact. Degrees up to 30 and all schemes are sampled, not exhausted.",
+    text="Generated functionals with one or several (degree, scheme) rules in a subdomain, negative controls above the rule's degree, vertex scheme, quadrature elements (default and custom points/weights; also next to integrals with their own metadata in one subdomain) and metadata-free polynomial products; the kernel value must equal the sum of each integral's own rule and the exact rational integral where the rule is exact. Degrees up to 30 and all schemes are sampled, not exhausted.",
     note="Trusted: basix.make_quadrature as the definition of a rule; rational arithmetic of the harness. Table tolerances set to 1e-14 for sharpness.",
     design="5/C11",
 )
@@ -70,22 +70,22 @@ CHECKS["C09"] = dict(
 CHECKS["C12"] = dict(
     category="exploration",
     technique="Hypothesis-generated (spec, process history, PYTHONHASHSEED, language) tuples executed in fresh child interpreters; byte-equality oracle against the empty-history hash-seed-0 child",
-    text="For generated forms/expressions the text returned by compile_ufl_objects is compared byte for byte between a fresh baseline process and processes that first create unrelated UFL objects, compile other generated specs (also with other options), call get_options differently, build the target before or after that history, and run under other hash seeds; C and numba back ends. Histories and seeds are sampled.",
+    text="For generated forms/expressions the text returned by compile_ufl_objects is compared byte for byte between a fresh baseline process and processes that first create unrelated UFL objects, compile other generated specs (also with other options), compile the target itself first with other options (table tolerances, scalar type, part), call get_options differently, build the target before or after that history, and run under other hash seeds; C and numba back ends. Histories and seeds are sampled.",
     note="Trusted: process isolation of the child interpreters. Hash seeds sampled from a fixed set of 9 values.",
     design="5/C12",
 )
 CHECKS["C13"] = dict(
     category="exploration",
     technique="Hypothesis-generated pairs of JIT requests (same request under another history/seed, or a mutation) evaluated in fresh child interpreters without compiling; stability and collision oracles on module/object names vs normalised generated sources",
-    text="Module and object names are computed with FFCx's own naming functions in separate processes. The same request must give identical names under any generated history/hash seed/object counters; a mutated request (literal, operator, metadata, degree, points perturbed down to 1e-13 also inside >1000-point arrays, shape, scalar type, option, compiler flags, debug flag, form order) whose generated source or options differ must get a different module name; names must be valid, distinct and defined by the code. Pairs are sampled.",
+    text="Module and object names are computed with FFCx's own naming functions in separate processes. The same request must give identical names under any generated history/hash seed/object counters; a mutated request (literal, operator, metadata, degree, points perturbed down to 1e-13 also inside >1000-point arrays, shape, scalar type, option, compiler flags, debug flag, form order) whose generated source or options differ must get a different module name; names must be valid, distinct and defined by the code. A sweep family names one request and every applicable single mutation (options, scalar types, compiler flags added/reordered/dropped, debug, point perturbations/count/shape/order, metadata, degree, subdomain id, object order) in one child and compares all pairs. Requests are sampled.",
     note="Trusted: SHA-1 collision resistance; 'different kernels' decided on generated source text with hashes normalised.",
     design="5/C13",
 )
 CHECKS["C03"] = dict(
     category="exploration",
     technique="enumeration/sampling of local-numbering pairs of two cells sharing a facet x Hypothesis-generated dS forms; convention-free metamorphic oracle (coinciding permutation codes discovered through a probe kernel; invariance against the reference value of the base numbering)",
-    text="For generated interior-facet functionals and linear forms on triangles, quadrilaterals, tetrahedra and hexahedra, all 36 triangle and 64 quadrilateral numbering pairs (tetrahedron/hexahedron pairs sampled in the quick tier, 576 tetrahedron pairs in the thorough tier) are fed to the kernel with physically identical data; a probe kernel identifies the permutation codes that make both sides' quadrature points coincide, at least one must exist, and for those codes the result must equal the base numbering's reference value. Kernels flagged needs_facet_permutations=false must not depend on the codes. Forms are sampled.",
-    note="Trusted: code 0 = identity (only convention used), reference evaluator for the base numbering, Lagrange/DG nodal sampling of polynomial fields.",
+    text="For generated interior-facet functionals and linear forms on triangles, quadrilaterals, tetrahedra and hexahedra, all 36 triangle and 64 quadrilateral numbering pairs (tetrahedron/hexahedron pairs sampled in the quick tier, 576 tetrahedron pairs in the thorough tier) are fed to the kernel with physically identical data; a probe kernel identifies the permutation codes that make both sides' quadrature points coincide, at least one must exist, and for those codes the result must equal the base numbering's reference value. Kernels flagged needs_facet_permutations=false must not depend on the codes. Coefficients also live in lowest-order N1curl/N2curl/RT/BDM spaces (dofs by per-cell interpolation of a physical field of the space, self-tested). Forms are sampled.",
+    note="Trusted: code 0 = identity (only convention used), reference evaluator for the base numbering, Lagrange/DG nodal sampling of polynomial fields, basix interpolation operators for the Piola-mapped coefficients.",
     design="5/C03",
 )
 CHECKS["C07"] = dict(
@@ -111,29 +111,29 @@ CHECKS["C10"] = dict(
 )
 CHECKS["C18"] = dict(
     category="exploration",
-    technique="Hypothesis-generated forms/expressions generated with language C and numba; differential execution (numba module executed in plain Python under an exact-size carray shim vs compiled C kernel) and descriptor comparison",
-    text="For generated forms (all integral types, several ids, math functions, conditionals, min/max/atan2, mixed/blocked elements) and expressions the numba module must be valid Python, import, and its kernels run in plain Python must reproduce the C kernel's tensor on the same inputs; all descriptor metadata must equal the C descriptor. Sampling; numba's own JIT is not exercised.",
+    technique="Hypothesis-generated forms/expressions generated with language C and numba; differential execution (numba module executed in plain Python under an exact-size carray shim, and a sample compiled by the real numba.cfunc, vs compiled C kernel) and descriptor comparison",
+    text="For generated forms (all integral types, several ids, math functions, conditionals, min/max/atan2, mixed/blocked elements) and expressions the numba module must be valid Python, import, and its kernels run in plain Python must reproduce the C kernel's tensor on the same inputs; all descriptor metadata must equal the C descriptor. A sample (1 form per shard quick, 4 thorough) is additionally compiled by numba itself (cfunc, nopython) and called through its C pointer; Bessel kernels run with scipy from .deps. Sampling.",
     note="Trusted: the C kernels (judged by C01/C02/C04 against the independent evaluator), CPython as the reference Python semantics.",
     design="5/C18",
 )
 CHECKS["C14"] = dict(
     category="exploration",
     technique="harness-owned deterministic scheduler over the children's file-system/sleep/compiler/dlopen sync points; Hypothesis-generated (thorough: enumerated) interleavings; invariants over the recorded history",
-    text="2-3 real processes run jit.compile_forms on one fresh cache directory; every primitive touching the cache blocks until the controller grants it, so the interleaving is chosen by a generated cyclic schedule (the thorough tier also enumerates all two-process interleavings by prefix flipping). The history must show exactly one compiler spawn, no load before link + ready marker, no exception, correct kernels everywhere, and a late request that reuses the cache. Interleavings are at sync-point granularity.",
+    text="2-3 real processes run jit.compile_forms on one fresh cache directory; every primitive touching the cache blocks until the controller grants it, so the interleaving is chosen by a generated cyclic schedule (the thorough tier also enumerates all two-process interleavings by prefix flipping). The history must show exactly one compiler spawn, no load before link + ready marker, no exception, correct kernels everywhere, and a late request that reuses the cache. Half of the three-process cases contain an impatient request whose timeout (1-3 polls) expires while the builder holds the lock: it may raise TimeoutError, everything else must still hold. Interleavings are at sync-point granularity.",
     note="Trusted: the wrappers see every cache access FFCx/cffi make (observed list in DESIGN.md 3.8); steps inside gcc/ld/the loader are atomic for the model.",
     design="5/C14",
 )
 CHECKS["C15"] = dict(
     category="fault_enumeration",
     technique="fault injection at every builder sync point (SIGKILL), transient compiler/linker failure via CC/LDSHARED wrappers, injected code-generation exceptions, each followed by generated follow-up request sequences; oracles on cache state, process-global state and follow-up outcomes",
-    text="Every sync point of the building process is a crash point and is killed there once per run (enumerated), plus waiter kills and Hypothesis-generated combinations of crash point x 1-3 sequential or concurrent follow-up requests; code generation and C compile/link failures are injected transiently. After a raised failure the lock must be gone, .failed present, logger handlers and stdout untouched and the next request must rebuild; after a kill every later request must return a correct kernel or raise TimeoutError.",
+    text="Every sync point of the building process is a crash point and is killed there once per run (enumerated), plus waiter kills and Hypothesis-generated combinations of crash point x 1-3 sequential or concurrent follow-up requests; code generation and C compile/link failures are injected transiently. After a raised failure the lock must be gone, .failed present, logger handlers and stdout untouched and the next request must rebuild and the requests after that rebuild must be served from the cache; after a kill every later request must return a correct kernel or raise TimeoutError.",
     note="Trusted: crash points = harness sync points; kills inside gcc/ld are represented by the points around their spawn.",
     design="5/C15",
 )
 CHECKS["C19"] = dict(
     category="exploration",
     technique="outcome classification (built / rejected before the compiler / compiler error) of Hypothesis-generated supported and deliberately unsupported inputs, differential check of built kernels, and exhaustive enumeration of quadrature-rule id collisions",
-    text="Generated supported forms/expressions and 'wild' inputs (cell_avg, Bessel functions, raw geometry, prism dS, DG vertex integrals, non-TP sum factorisation, ridge integrals, ...) are classified; a C compiler error or a built kernel that disagrees with the reference is a violation, a Python exception is an allowed rejection. All quadrature rules (6 cells x degree 0-30 x 3 schemes x 2 polysets + vertex) are enumerated and every pair sharing FFCx's rule id is compiled as a two-rule form (exhaustive over rule pairs).",
+    text="Generated supported forms/expressions and 'wild' inputs (cell_avg, Bessel functions, raw geometry, prism dS, DG vertex integrals, non-TP sum factorisation, ridge integrals, ...) are classified; a C compiler error or a built kernel that disagrees with the reference is a violation, a Python exception is an allowed rejection. All quadrature rules (6 cells x degree 0-30 x 3 schemes x 2 polysets + vertex) are enumerated and every pair sharing FFCx's rule id is compiled as a two-rule form (exhaustive over rule pairs); one pair of distinct rules per (cell, number of points) class is compiled into one kernel; one integral with two quadrature elements must be rejected unless their rules agree; a quarter of the inputs is compiled for complex128; a fixed strict-C17 probe reports the recorded Bessel finding.",
     note="Trusted: gcc as the C17 compiler; 'supported' is never inferred - only compiler errors and silent miscomputation count.",
     design="5/C19",
 )
